@@ -203,7 +203,10 @@ Judge(ev) ==
       P   == IF op.op = "new" THEN Empty(op.weighted, TypeName)
              ELSE IF op.op = "copy" THEN store[op.from]
              ELSE store[o]
+      \* "adopt": the history continues on the object that load_hypergraph returned (its projection was
+      \* judged by LoadClauses in the previous event); nothing to judge here
       step == IF op.op \in {"new", "copy"} THEN {<<"fresh_object_state", Q = P>>}
+              ELSE IF op.op = "adopt" THEN {}
               ELSE StepClauses(ev, P, Q, op)
       others == {<<"other_objects_untouched",
                    \A x \in (DOMAIN store) \cap Objs(ev) : x # o => StateOf(ev, x) = store[x]>>}
